@@ -18,7 +18,7 @@ func c09Str(name string) string {
 }
 
 func c09Header(name string, maxItems int) *Header {
-	h := &Header{UUID: uuid.UUID(c09Str(name + ".uuid"))}
+	h := &Header{UUID: uuid.UUID("0190c2a6-7c2a-7000-8000-00000000000" + c09Str(name+".uuid"))}
 	if vrt.Choice(name+".hasdig", 2) == 1 {
 		h.Digest = &dsig.Digest{Algorithm: "sha256", Value: c09Str(name + ".dig")}
 	}
